@@ -511,7 +511,25 @@ enum Profile {
 fn gen_addr(r: &mut Rng, p: Profile) -> Addr {
     let host = match r.below(4) {
         0 => Host::Ip4(arr(r)),
-        1 => Host::Ip6(arr(r)),
+        1 => {
+            // random octets almost never land in a special range: half of the IPv6 hosts are
+            // structured (IPv4-mapped ::ffff:a.b.c.d, IPv4-compatible ::a.b.c.d, loopback,
+            // unspecified, link-local, unique-local, documentation, 6to4, NAT64)
+            let mut o: [u8; 16] = arr(r);
+            match r.below(12) {
+                0 | 1 => { for b in o.iter_mut().take(10) { *b = 0; } o[10] = 0xff; o[11] = 0xff; }
+                2 => { for b in o.iter_mut().take(12) { *b = 0; } }
+                3 => { o = [0; 16]; o[15] = 1; }
+                4 => { o = [0; 16]; }
+                5 => { o[0] = 0xfe; o[1] = 0x80; }
+                6 => { o[0] = 0xfd; }
+                7 => { o[0] = 0x20; o[1] = 0x01; o[2] = 0x0d; o[3] = 0xb8; }
+                8 => { o[0] = 0x20; o[1] = 0x02; }
+                9 => { o[0] = 0x00; o[1] = 0x64; o[2] = 0xff; o[3] = 0x9b; for b in o.iter_mut().take(12).skip(4) { *b = 0; } }
+                _ => {}
+            }
+            Host::Ip6(o)
+        }
         2 => {
             let n = match p {
                 Profile::Typical => r.below(40) as usize,
